@@ -118,3 +118,27 @@ Definition verdict_sf (c : sf_case) : N :=
   (if corr then 0 else 1) + (if spec then 0 else 2).
 Definition run_sf (cs : list sf_case) : list (N * N) :=
   filter (fun p => negb (snd p =? 0)) (map (fun c => (sf_id c, verdict_sf c)) cs).
+
+(* ---------- C05: fsutil.SameContents ---------- *)
+From DudV Require Import Proofs.SameContents.
+
+Record same_case := mkSame {
+  sm_id : N;
+  sm_la : N; sm_lb : N;                (* lengths *)
+  sm_diff : bool;                      (* the harness wrote a differing byte inside the common prefix *)
+  sm_small : option (bytes * bytes);   (* the contents, when small enough to run the model *)
+  sm_res : option bool }.              (* observed result (None = error) *)
+
+Definition verdict_same (c : same_case) : N :=
+  (* the right-hand side of the theorem same_contents_correct: plain equality *)
+  let expected := (sm_la c =? sm_lb c) && negb (sm_diff c) in
+  let spec := match sm_res c with Some r => Bool.eqb r expected | None => false end in
+  let corr := match sm_small c, sm_res c with
+              | Some (a, b), Some r =>
+                Bool.eqb (same_contents 4 a b) r && Bool.eqb (same_contents 64 a b) r &&
+                Bool.eqb (beqb a b) expected
+              | _, _ => true
+              end in
+  (if corr then 0 else 1) + (if spec then 0 else 2).
+Definition run_same (cs : list same_case) : list (N * N) :=
+  filter (fun p => negb (snd p =? 0)) (map (fun c => (sm_id c, verdict_same c)) cs).
